@@ -27,6 +27,20 @@ func (t *loopTr) expr(e ast.Expr) (string, lkind) {
 		return t.expr(x.X)
 	case *ast.Ident:
 		return t.ident(x)
+	case *ast.SelectorExpr:
+		if v, ok := t.info.Uses[x.Sel].(*types.Var); ok && !v.IsField() && v.Pkg() != nil && v.Pkg() != t.set.tp.tpkg &&
+			types.Identical(v.Type(), types.Universe.Lookup("error").Type()) {
+			if t.errAt {
+				t.fail(x, "an imported error variable in a function that also builds &T{ErrX, off} errors is not supported")
+			}
+			return "(some " + leanString(t.importedErrVar(x, v)) + ")", kErr
+		}
+		if o := t.fieldOf(x); o != nil {
+			if _, isArr := arrayLen(o.Type()); isArr {
+				t.fail(x, "the array field %s may only be indexed (c.f[i]), measured or copied from (c.f[:])", o.Name())
+			}
+			return t.vars[o], t.kindOf(o.Type(), x)
+		}
 	case *ast.UnaryExpr:
 		if x.Op == token.AND {
 			return t.errLit(x)
@@ -68,8 +82,14 @@ func (t *loopTr) expr(e ast.Expr) (string, lkind) {
 		}
 		return t.binop(e, x.Op, a, ak, b, bk)
 	case *ast.IndexExpr:
+		if inner, ok := unparen(x.X).(*ast.IndexExpr); ok {
+			return t.index2D(x, inner)
+		}
 		a, i, ak, _ := t.index(x)
 		ek := ak.elem()
+		if ek.isSlice() {
+			t.fail(x, "a row of a slice of slices may only be used as an argument x[j][lo:] or be assigned `x[j] = make(…)` (aliasing-sensitive)")
+		}
 		return fmt.Sprintf("(%s.getD %s 0#%d)", a, i, ek.width()), ek
 	case *ast.CompositeLit:
 		k := t.kindOf(tv.Type, e)
@@ -97,7 +117,7 @@ func (t *loopTr) expr(e ast.Expr) (string, lkind) {
 
 func (t *loopTr) ident(x *ast.Ident) (string, lkind) {
 	s, k := t.listIdent(x)
-	if _, isArr := arrayLen(t.info.Uses[x].Type()); isArr {
+	if isArrayPtr(t.info.Uses[x].Type()) {
 		t.fail(x, "the array pointer %s may only be indexed (p[i]) or measured (len(p))", x.Name)
 	}
 	return s, k
@@ -115,7 +135,7 @@ func (t *loopTr) listIdent(x *ast.Ident) (string, lkind) {
 	}
 	k := t.kindOf(v.Type(), x)
 	if name, ok := t.vars[o]; ok {
-		if t.pairBuf[o] {
+		if t.pairBuf[o] || t.isTagged(o) {
 			return name + ".2", k
 		}
 		return name, k
@@ -235,13 +255,18 @@ func (t *loopTr) binop(at ast.Node, op token.Token, a string, ak lkind, b string
 // Unless the index is in range by construction (i is the key of an enclosing `for i := range a` in which
 // neither is reassigned), the bounds check is registered.
 func (t *loopTr) index(x *ast.IndexExpr) (string, string, lkind, types.Object) {
-	aid, ok := unparen(x.X).(*ast.Ident)
-	if !ok {
+	var ao types.Object
+	var a string
+	var ak lkind
+	if aid, ok := unparen(x.X).(*ast.Ident); ok {
+		ao = t.info.Uses[aid]
+		a, ak = t.listIdent(aid)
+	} else if f := t.fieldOf(x.X); f != nil {
+		ao, a, ak = f, t.vars[f], t.kindOf(f.Type(), x)
+	} else {
 		t.fail(x, "index expression %s: only variable[index] is supported", t.p.src(x))
 	}
-	ao := t.info.Uses[aid]
-	a, ak := t.listIdent(aid)
-	if !ak.isSlice() {
+	if !ak.isSlice() && ak != kString {
 		t.fail(x, "indexing of %s", ak.lean())
 	}
 	if t.safe[x] {
@@ -252,23 +277,7 @@ func (t *loopTr) index(x *ast.IndexExpr) (string, string, lkind, types.Object) {
 	if n, isArr := arrayLen(ao.Type()); isArr {
 		length = fmt.Sprint(n)
 	}
-	if c, isConst := t.constInt(x.Index); isConst {
-		if c.Sign() < 0 {
-			t.fail(x, "negative constant index")
-		}
-		t.addCheck(fmt.Sprintf("(decide (%s < %s))", c, length))
-		return a, c.String(), ak, ao
-	}
-	i, ik := t.expr(x.Index)
-	switch ik {
-	case kInt:
-		t.addCheck(fmt.Sprintf("(Go.inRangeS %s %s)", i, length))
-	case kUint:
-		t.addCheck(fmt.Sprintf("(Go.inRangeU %s %s)", i, length))
-	default:
-		t.fail(x, "index of type %s (only int, uint and constants are supported)", t.typeOf(x.Index).Type)
-	}
-	return a, i + ".toNat", ak, ao
+	return a, t.checkedIndex(x.Index, length), ak, ao
 }
 
 // noAlias rejects a bare slice variable where a second reference to its backing array would be created.
@@ -283,6 +292,9 @@ func (t *loopTr) noAlias(e ast.Expr, what string) {
 }
 
 func (t *loopTr) call(x *ast.CallExpr) (string, lkind) {
+	if h, ok := t.hoisted[x]; ok {
+		return h.name, h.kind
+	}
 	ftv := t.typeOf(x.Fun)
 	if ftv.IsType() { // conversion
 		if len(x.Args) != 1 {
@@ -292,6 +304,17 @@ func (t *loopTr) call(x *ast.CallExpr) (string, lkind) {
 		t.noAlias(x.Args[0], "conversion")
 		s, from := t.expr(x.Args[0])
 		return t.convert(x, s, from, to), to
+	}
+	if o, m := t.builderCall(x); o != nil {
+		if m != "String" || len(x.Args) != 0 {
+			t.fail(x, "strings.Builder.%s is only supported as a statement", m)
+		}
+		return t.vars[o], kBytes
+	}
+	if sig, _ := t.sigOf(x); sig != nil {
+		if _, isSel := unparen(x.Fun).(*ast.SelectorExpr); isSel || !t.set.done[sigName(sig)] {
+			return t.sigCall(x, sig)
+		}
 	}
 	if sel, ok := unparen(x.Fun).(*ast.SelectorExpr); ok {
 		return t.libCall(x, sel)
@@ -334,7 +357,7 @@ func (t *loopTr) call(x *ast.CallExpr) (string, lkind) {
 		}
 		parts := []string{o.Name()}
 		for _, a := range x.Args {
-			s, _ := t.expr(a)
+			s, _ := t.argValue(a)
 			parts = append(parts, s)
 		}
 		return "(" + strings.Join(parts, " ") + ")", t.kindOf(sig.Results().At(0).Type(), x)
@@ -445,6 +468,9 @@ func (t *loopTr) makeCall(x *ast.CallExpr) (string, lkind) {
 	if !nk.isNum() {
 		t.fail(x, "length is not an integer")
 	}
+	if nk == kInt && t.flowFn {
+		t.addCheck("(Go.nonneg " + n + ")") // a negative length panics (checked in functions that can panic anyway)
+	}
 	return "(List.replicate " + n + ".toNat " + zero + ")", k
 }
 
@@ -496,7 +522,7 @@ func (t *loopTr) libCall(x *ast.CallExpr, sel *ast.SelectorExpr) (string, lkind)
 				}
 				res = s
 			} else {
-				t.expr(x.Args[arg])
+				t.argValue(x.Args[arg])
 			}
 			arg++
 		}
@@ -592,16 +618,32 @@ func (s *loopSet) checkReadOnly(t *loopTr, v *types.Var, at ast.Node) {
 	written := map[ast.Expr]bool{}
 	for _, fn := range s.p.sortedFiles() {
 		ast.Inspect(s.p.files[fn], func(n ast.Node) bool {
+			// an element of an element: T[i][j] = e, &T[i][j], T[i][:] also write / alias T[i]
+			mark := func(e ast.Expr) {
+				for {
+					e = unparen(e)
+					written[e] = true
+					ie, ok := e.(*ast.IndexExpr)
+					if !ok {
+						return
+					}
+					e = ie.X
+				}
+			}
 			switch x := n.(type) {
 			case *ast.AssignStmt:
 				for _, l := range x.Lhs {
-					written[unparen(l)] = true
+					mark(l)
 				}
 			case *ast.IncDecStmt:
-				written[unparen(x.X)] = true
+				mark(x.X)
 			case *ast.UnaryExpr:
 				if x.Op == token.AND {
-					written[unparen(x.X)] = true
+					mark(x.X)
+				}
+			case *ast.SliceExpr:
+				if _, nested := unparen(x.X).(*ast.IndexExpr); nested {
+					mark(x.X)
 				}
 			case *ast.RangeStmt:
 				if id, ok := unparen(x.X).(*ast.Ident); ok {
